@@ -93,6 +93,11 @@ fn split_sum(sum: usize, variant: usize) -> [u8; 4] {
 /// Builds a digest-bearing packet 1 as a peer of role `peer` would, under `scheme`, with the
 /// pointer bytes summing to `sum`.
 pub fn build_peer_p1(peer: Role, scheme: u8, sum: usize, variant: usize, seed: u64) -> Vec<u8> {
+    build_peer_p1_v(peer, scheme, sum, variant, seed, [128, 0, 7, 2])
+}
+
+/// As `build_peer_p1` with explicit time/version bytes 4..8 (peers use many different values).
+pub fn build_peer_p1_v(peer: Role, scheme: u8, sum: usize, variant: usize, seed: u64, version: [u8; 4]) -> Vec<u8> {
     let mut p1 = vec![0u8; 1536];
     let mut x = seed.wrapping_mul(0x9E3779B97F4A7C15) ^ 0xDEADBEEF;
     for b in p1.iter_mut().skip(8) {
@@ -101,7 +106,7 @@ pub fn build_peer_p1(peer: Role, scheme: u8, sum: usize, variant: usize, seed: u
         x ^= x << 17;
         *b = x as u8;
     }
-    p1[4..8].copy_from_slice(&[128, 0, 7, 2]);
+    p1[4..8].copy_from_slice(&version);
     let ptr = if scheme == 0 { 8 } else { 772 };
     p1[ptr..ptr + 4].copy_from_slice(&split_sum(sum, variant));
     let off = digest_offset(&p1, scheme);
@@ -251,6 +256,100 @@ pub fn run(run: &Run) {
         }
     });
 
+    // ---- 2b. digest-bearing packet 1 with other time/version fields (peers differ in bytes 0..8) ----
+    let versions: [[u8; 4]; 5] = [[0, 0, 0, 0], [9, 0, 124, 2], [10, 0, 45, 2], [255, 255, 255, 255], [0, 0, 0, 1]];
+    let mut cases2b: Vec<(Role, u8, usize, [u8; 4], [u8; 4])> = Vec::new();
+    for role in [Role::Client, Role::Server] {
+        for scheme in 0..2u8 {
+            for sum in (0..=1020usize).step_by(if thorough { 17 } else { 101 }) {
+                for v in versions.iter() {
+                    for time in [[0u8, 0, 0, 0], [0, 0x12, 0x6c, 0xbb]] {
+                        cases2b.push((role, scheme, sum, *v, time));
+                    }
+                }
+            }
+        }
+    }
+    let vers_ok = AtomicU64::new(0);
+    cases2b.par_iter().for_each(|&(role, scheme, sum, version, time)| {
+        evals.fetch_add(1, Ordering::Relaxed);
+        let peer = other(role);
+        // time field is part of the signed message: set it before signing by rebuilding
+        let mut p1 = build_peer_p1_v(peer, scheme, sum, 0, 77 + sum as u64, version);
+        p1[0..4].copy_from_slice(&time);
+        let off = digest_offset(&p1, scheme);
+        let mut msg = Vec::with_capacity(1504);
+        msg.extend_from_slice(&p1[..off]);
+        msg.extend_from_slice(&p1[off + 32..]);
+        let d = hmac_sha256(short_key(peer), &msg);
+        p1[off..off + 32].copy_from_slice(&d);
+        let replay = json!({"role": format!("{:?}", role), "peer_scheme_pointer_at": if scheme == 0 { 8 } else { 772 }, "pointer_sum": sum, "time_bytes": time, "version_bytes": version, "peer_packet1": hex(&p1)});
+        match answer_to(role, &p1, 5) {
+            Err(e) => run.violation(&format!("C11/packet2-not-produced/{:?}", role), &e, replay),
+            Ok((_own, p2)) => {
+                let k = hmac_sha256(&full_key(role), &p1[off..off + 32]);
+                let sig = hmac_sha256(&k, &p2[..1504]);
+                if sig[..] != p2[1504..] {
+                    let echoed = p2 == p1;
+                    run.violation(
+                        &format!("C11/packet2-signature-invalid/{:?}{}/version-bytes", role, if echoed { "/echoed-instead" } else { "" }),
+                        &format!("{:?} answer to a digest-bearing packet 1 with time bytes {:?} and version bytes {:?} (digest at {}) does not end with the response signature{}", role, time, version, off, if echoed { " (echo: digest not looked for / not found)" } else { "" }),
+                        replay,
+                    );
+                } else {
+                    vers_ok.fetch_add(1, Ordering::Relaxed);
+                }
+            }
+        }
+    });
+    run.count("packet2_signature_valid_other_version_bytes", vers_ok.load(Ordering::Relaxed));
+
+    // ---- 2c. near misses: a packet 1 whose digest is wrong in ONE byte (or whose signed content
+    //      changed in one byte) carries no valid digest and must be echoed ----
+    let near_ok = AtomicU64::new(0);
+    let mut cases2c: Vec<(Role, u8, usize, usize)> = Vec::new(); // role, scheme, sum, byte index to flip (0..32 digest, 32.. = content positions)
+    for role in [Role::Client, Role::Server] {
+        for scheme in 0..2u8 {
+            for sum in [0usize, 300, 727, 728, 1020] {
+                for flip in 0..36usize {
+                    cases2c.push((role, scheme, sum, flip));
+                }
+            }
+        }
+    }
+    cases2c.par_iter().for_each(|&(role, scheme, sum, flip)| {
+        evals.fetch_add(1, Ordering::Relaxed);
+        let peer = other(role);
+        let mut p1 = build_peer_p1(peer, scheme, sum, 0, 1234 + sum as u64);
+        let off = digest_offset(&p1, scheme);
+        let pos = if flip < 32 { off + flip } else { [0usize, 7, 1535, 700][flip - 32] };
+        // do not touch the pointer bytes of either scheme or the digest area when flipping content
+        if flip >= 32 && (pos >= off && pos < off + 32) {
+            return;
+        }
+        p1[pos] ^= 0x01;
+        // the flipped packet must not validate under either scheme
+        if digest_valid_at(&p1, digest_offset(&p1, 0), short_key(peer)) || digest_valid_at(&p1, digest_offset(&p1, 1), short_key(peer)) {
+            return;
+        }
+        let replay = json!({"role": format!("{:?}", role), "scheme_pointer_at": if scheme == 0 { 8 } else { 772 }, "pointer_sum": sum, "flipped_byte": pos, "digest_at": off, "peer_packet1": hex(&p1)});
+        match answer_to(role, &p1, 6) {
+            Err(e) => run.violation(&format!("C11/echo-not-produced/{:?}", role), &e, replay),
+            Ok((_o, p2)) => {
+                if p2 != p1 {
+                    run.violation(
+                        &format!("C11/packet1-without-valid-digest-not-echoed/{:?}", role),
+                        &format!("packet 1 whose {} differs in one bit carries no valid digest, yet packet 2 is not an echo of it", if flip < 32 { format!("digest byte {}", flip) } else { format!("signed content byte {}", pos) }),
+                        replay,
+                    );
+                } else {
+                    near_ok.fetch_add(1, Ordering::Relaxed);
+                }
+            }
+        }
+    });
+    run.count("near_miss_packets_echoed", near_ok.load(Ordering::Relaxed));
+
     // ---- 3. digest-less packet 1: exact echo ----
     for role in [Role::Client, Role::Server] {
         for shape in 0..3 {
@@ -301,6 +400,6 @@ pub fn run(run: &Run) {
             eprintln!("MACHINERY-ERROR C11: only {} of 1456 own digest positions were reached", distinct_offsets);
             std::process::exit(2);
         }
-        run.require_hist(&["own_packet1_digest_valid", "packet2_signature_valid", "digestless_echoed"]);
+        run.require_hist(&["own_packet1_digest_valid", "packet2_signature_valid", "digestless_echoed", "packet2_signature_valid_other_version_bytes", "near_miss_packets_echoed"]);
     }
 }
